@@ -1,6 +1,6 @@
 """Per-property check pipelines: S (design model), R (TLC-generated behaviours
 replayed into the real code), T (trace validation of what the code did)."""
-import json, os, sys
+import json, os, sys, re, glob, shutil
 from vlib import *
 
 
@@ -40,6 +40,60 @@ def crash_violation(res, what, rc, text, inputs):
 
 
 # --------------------------------------------------------------------------------------------
+def validate_alloc_events(path, wd, label="aev"):
+    """T (stateful, one step per event): the recorded steps of the real RegisterAllocator<N> against the actions of
+    Alloc.tla (Trace_Alloc.tla).  The file is cut at `reset` events into pieces validated by concurrent TLC runs.
+    Returns (events, drifting programs, {program id: clauses})."""
+    import concurrent.futures
+    lines = open(path).readlines()
+    if not lines:
+        return 0, 0, {}
+    n = json.loads(lines[0])["n"]
+    maxslot = 4
+    for ln in lines:
+        for m in re.finditer(r'\[\d+,"\w+",(-?\d+),(-?\d+),(-?\d+),-?\d+\]', ln):
+            maxslot = max(maxslot, int(m.group(1)), int(m.group(2)), int(m.group(3)))
+    cfg = os.path.join(wd, "%s_n%d.cfg" % (label, n))
+    with open(cfg, "w") as f:
+        f.write("SPECIFICATION TSpec\nCONSTANTS N = %d MaxLive = 1 MaxOps = %d\nPOSTCONDITION Consumed\nCHECK_DEADLOCK FALSE\n" % (n, maxslot // 2 + 1))
+    pieces, cur = [], []
+    for ln in lines:
+        if ln.startswith('{"e":"reset"') and len(cur) >= 40000:
+            pieces.append(cur)
+            cur = []
+        cur.append(ln)
+    pieces.append(cur)
+    jobs = []
+    for k, part in enumerate(pieces):
+        d = os.path.join(wd, "%s_n%d_%d" % (label, n, k))
+        os.makedirs(d, exist_ok=True)
+        pth = os.path.join(d, "events.ndjson")
+        with open(pth, "w") as f:
+            f.writelines(part)
+        jobs.append((d, pth))
+    drift = 0
+    rejects = {}
+    def one(job):
+        d, pth = job
+        rc, text, dt = tlc("Trace_Alloc", cfg, d, workers=1, timeout=3000,
+                           env={"TRACE": pth, "JAVA_TOOL_OPTIONS": "-Xss1g -Xmx3g -Dtlc2.tool.queue.IStateQueue=StateDeque"})
+        nl = sum(1 for _ in open(pth))
+        c = parse_counts(text)
+        if rc != 0 or "UNCONSUMED" in text or c is None or c[1] != nl + 1:
+            sys.stdout.write(text[-3000:])
+            raise ToolError("Trace_Alloc did not consume %s (rc=%s, states=%s, lines=%d)" % (pth, rc, c, nl))
+        return text
+    with concurrent.futures.ThreadPoolExecutor(max_workers=4) as ex:
+        for text in ex.map(one, jobs):
+            drift += len(set(re.findall(r'<<"DRIFT", (-?\d+)', text)))
+            for m in REJECT_RE.finditer(text):
+                rejects.setdefault(int(m.group(1)), set()).update(x.strip().strip('"') for x in m.group(2).split(",") if x.strip())
+    for d, _ in jobs:
+        shutil.rmtree(d, ignore_errors=True)
+    log("T Trace_Alloc N=%d: %d allocator steps validated against Alloc.tla, %d programs drift, %d rejected" % (n, len(lines), drift, len(rejects)))
+    return len(lines), drift, rejects
+
+
 def c01(res):
     wd = workdir("C01")
     q = res.tier == "quick"
@@ -58,10 +112,31 @@ def c01(res):
     progs = os.path.join(wd, "progs.out")
     res.gens.append(generate("Alloc", "AllocGen_quick.cfg" if q else "AllocGen_thorough.cfg", wd, progs))
     trace = os.path.join(wd, "trace.ndjson")
-    rc, text = record("c01", [progs, res.tier, trace, dags], wd, env={"VERIF_SEED": str(res.seed)})
+    aev = os.path.join(wd, "aev")
+    shutil.rmtree(aev, ignore_errors=True)
+    os.makedirs(aev)
+    rc, text = record("c01", [progs, res.tier, trace, dags], wd, env={"VERIF_SEED": str(res.seed), "VERIF_ALLOC_EVENTS": aev,
+                                                                     "VERIF_ALLOC_EVENTS_MAX": "120000" if q else "400000"})
     if rc != 0:
         crash_violation(res, "c01", rc, text, progs)
         return res.finish("recorder crashed")
+    # T (step by step): the real allocator against the actions of Alloc.tla, invariants evaluated in every state
+    steps = drifting = 0
+    for f in sorted(glob.glob(os.path.join(aev, "alloc_n*.ndjson"))):
+        ne, nd, arej = validate_alloc_events(f, wd)
+        steps += ne
+        drifting += nd
+        for pid, clauses in arej.items():
+            rdir = os.path.join(ROOT, "replays", "C01")
+            os.makedirs(rdir, exist_ok=True)
+            path = os.path.join(rdir, "%s_seed%d_alloc_%s_%d.ndjson" % (res.tier, res.seed, os.path.basename(f).replace(".ndjson", ""), pid))
+            with open(path, "w") as out:
+                out.writelines(l for l in open(f) if '"id":%d,' % pid in l or l.rstrip().endswith('"id":%d}' % pid))
+            res.violations.append(("allocator step trace %s program %d fails=%s" % (os.path.basename(f), pid, "+".join(sorted(clauses))), path))
+    if drifting:
+        print("SPEC-DRIFT property=C01 %d programs: the real allocator's steps differ from Alloc.tla (not a violation)" % drifting)
+    res.extra["allocator_steps_validated"] = steps
+    res.extra["allocator_programs_drifting"] = drifting
     # T
     n, rej = validate("Trace_C01", trace, wd, timeout=3000)
     res.validated = n - len(rej)
@@ -311,7 +386,14 @@ def c07(res):
         res.models.append(model_check("MC_Render3D", cfg, wd, workers=8, timeout=6000))
     res.models.append(prove("TileCoverProof", wd))
     trace = os.path.join(wd, "trace.ndjson")
-    if not run_recorder(res, "raster", ["c07", "-", res.tier, trace], wd, timeout=3000):
+    voxsets = os.path.join(wd, "voxsets.out")
+    open(voxsets, "w").close()
+    for cfg in (("Render3DGen_214.cfg", "Render3DGen_223.cfg") if q else ("Render3DGen_214.cfg", "Render3DGen_223.cfg", "Render3DGen_125.cfg")):
+        part = os.path.join(wd, cfg.replace(".cfg", ".out"))
+        res.gens.append(generate("MC_Render3D", cfg, wd, part, workers=4, timeout=1500))
+        with open(voxsets, "a") as f:
+            f.write(open(part).read())
+    if not run_recorder(res, "raster", ["c07", voxsets, res.tier, trace], wd, timeout=3000):
         return res.finish("recorder crashed")
     n, rej = validate("Trace_C07", trace, wd, timeout=3000)
     res.validated = n - len(rej)
@@ -320,7 +402,9 @@ def c07(res):
     res.add_rejects(trace, rej, lambda r, f: "backend=%s size=%sx%sx%s tiles=%s threads=%s fails=%s" % (r.get("backend"), r.get("w"), r.get("h"), r.get("d"), r.get("tiles"), r.get("threads"), "+".join(sorted(f))))
     res.assumptions = ["reference heightmap: interpreter on the unsimplified shape over the whole grid and one root tile beyond its top",
                        "reference normals: the same backend's gradient evaluator on the unsimplified shape (C05 judges gradients)"]
-    return res.finish("stacked objects (slabs, spheres, tilted planes, boxes), voxel-aligned boxes and random CSG on grids with "
+    return res.finish("every voxel set of the Render3D.tla generator bound (2x1x4, 2x2x3; thorough also 1x2x5) realised as voxel-aligned boxes and "
+                      "rendered under two tile lists each, the expected heightmap recomputed by Trace_C07 from the voxel set; "
+                      "stacked objects (slabs, spheres, tilted planes, boxes), voxel-aligned boxes and random CSG on grids with "
                       "width != height != depth and depths that are not multiples of the root tile; tile lists incl. single-level and "
                       "non-powers of two; affine and projective views; VM and JIT; pools; a case = one heightmap, every column compared")
 
@@ -616,6 +700,13 @@ def replay(prop, path):
         return 2
     if prop == "C17":
         c17_meta(workdir(prop))
+    if open(path).readline().startswith('{"e":"reset"'):      # allocator step trace (Trace_Alloc.tla)
+        ne, nd, rej = validate_alloc_events(os.path.abspath(path), workdir(prop), label="replay")
+        if rej:
+            print("VIOLATION property=%s replay=%s  # %s" % (prop, path, rej))
+            return 1
+        print("replay accepted (%d steps, %d drifting)" % (ne, nd))
+        return 0
     n, rej = validate(spec, os.path.abspath(path), workdir(prop))
     if rej:
         print("VIOLATION property=%s replay=%s  # %s" % (prop, path, rej))
